@@ -116,8 +116,12 @@ func (b *flattenBuffer) EndBatch(end edge.EndBatchMessage) error {
 		if err != nil {
 			return err
 		}
-		if err := b.emitBatchPoint(b.time, fields); err != nil {
-			return err
+		// Like for the other points of the batch, there is nothing to emit
+		// if none of the buffered points could be flattened.
+		if len(fields) > 0 {
+			if err := b.emitBatchPoint(b.time, fields); err != nil {
+				return err
+			}
 		}
 		b.points = b.points[0:0]
 	}
